@@ -60,6 +60,7 @@ type registration struct {
 type invocation struct {
 	callID      requestID
 	callee      *wamp.Session
+	reg         *registration
 	canceled    bool
 	inProgress  bool
 	timerCancel context.CancelFunc
@@ -676,7 +677,16 @@ func (d *dealer) syncMatchProcedure(procedure wamp.URI) (*registration, bool) {
 
 func (d *dealer) syncCall(caller *wamp.Session, msg *wamp.Call) {
 	reg, ok := d.syncMatchProcedure(msg.Procedure)
-	if !ok || len(reg.callees) == 0 {
+	// A further chunk of a progressive call that is already being served goes
+	// to the callee serving it, under the registration the call was routed by,
+	// whatever has happened to that registration meanwhile.
+	var ongoing bool
+	if invkID, found := d.invocationByCall[requestID{session: caller.ID, request: msg.Request}]; found {
+		if invk := d.invocations[invkID]; invk != nil && invk.reg != nil {
+			reg, ok, ongoing = invk.reg, true, true
+		}
+	}
+	if !ok || (len(reg.callees) == 0 && !ongoing) {
 		// If no registered procedure, send error.
 		d.trySend(caller, &wamp.Error{
 			Type:    msg.MessageType(),
@@ -750,6 +760,7 @@ func (d *dealer) syncCall(caller *wamp.Session, msg *wamp.Call) {
 		invk = &invocation{
 			callID:     reqID,
 			callee:     callee,
+			reg:        reg,
 			inProgress: isInProgress,
 			options:    msg.Options,
 		}
